@@ -29,6 +29,9 @@ func (it sItem) name() string {
 	return strings.ToLower(string(it.Argv[0]))
 }
 
+// bigTxnCmds is the number of commands in the transaction of symbol "tL" (scenarios set it).
+var bigTxnCmds = 1100
+
 const (
 	fltPrefix    = "flt:"
 	blackDB      = 5
@@ -52,6 +55,19 @@ func symbolCommands(sym string, i int) [][]string {
 		return [][]string{{"SET", probeKey, "host" + p + "_1700000000" + p + "00000000"}}
 	case "wx":
 		return [][]string{{"SET", "k1", "x" + p, "EX", "100"}}
+	case "wL":
+		// a value far larger than any small-argument shortcut, still inside one read buffer
+		return [][]string{{"SET", "k1", "L" + p + ":" + strings.Repeat("0123456789abcdef", 1250)}}
+	case "wH":
+		// a value larger than the 64 KiB replication read buffer
+		return [][]string{{"SET", "k2", "H" + p + ":" + strings.Repeat("fedcba9876543210", 4500)}}
+	case "tL":
+		// a source transaction with far more commands than any batch size or per-transaction constant
+		cmds := [][]string{{"MULTI"}}
+		for i := 0; i < bigTxnCmds; i++ {
+			cmds = append(cmds, []string{"SET", "k" + strconv.Itoa(1+i%2), "B" + p + "_" + strconv.Itoa(i)})
+		}
+		return append(cmds, []string{"EXEC"})
 	case "d":
 		return [][]string{{"DEL", "k1", "k2"}}
 	case "df":
